@@ -149,3 +149,26 @@ impl<'a> Tape<'a> {
         self.p = p;
     }
 }
+
+/// Raw bytes -> a tape of the given shape (little-endian words, zero padded; as many rows as the
+/// bytes fill, within the shape's bounds): lets a coverage-guided byte-level fuzzer drive any
+/// property's generator, and turns a saved fuzzer input back into the case it stood for.
+pub fn tape_from_raw(shape: &Shape, raw: &[u8]) -> TapeVal {
+    let words: Vec<u64> = raw
+        .chunks(8)
+        .map(|c| {
+            let mut b = [0u8; 8];
+            b[..c.len()].copy_from_slice(c);
+            u64::from_le_bytes(b)
+        })
+        .collect();
+    let rows = ((words.len() + shape.row_len - 1) / shape.row_len.max(1)).clamp(shape.rows_min, shape.rows_max);
+    (0..rows)
+        .map(|r| (0..shape.row_len).map(|k| words.get(r * shape.row_len + k).copied().unwrap_or(0)).collect())
+        .collect()
+}
+
+/// The inverse direction for a starting corpus.
+pub fn tape_to_raw(t: &TapeVal) -> Vec<u8> {
+    t.iter().flat_map(|r| r.iter().flat_map(|w| w.to_le_bytes())).collect()
+}
